@@ -597,12 +597,20 @@ type ShardCounts struct {
 	// UnusableDataShardCount is the number of parity shards that
 	// are unusable, i.e. missing or corrupt.
 	UnusableParityShardCount int
+
+	// MisplacedDataFileCount is the number of data files that are
+	// not intact even though all of their data shards are usable,
+	// e.g. because their shards were found at other offsets or in
+	// other files, or because the file has extra or missing
+	// bytes. Such files need to be rewritten by a repair, but
+	// don't need any parity shards.
+	MisplacedDataFileCount int
 }
 
 // RepairNeeded returns whether repair is needed, i.e. whether
-// UnusableDataShardCount is non-zero.
+// UnusableDataShardCount or MisplacedDataFileCount is non-zero.
 func (fc ShardCounts) RepairNeeded() bool {
-	return fc.UnusableDataShardCount > 0
+	return fc.UnusableDataShardCount > 0 || fc.MisplacedDataFileCount > 0
 }
 
 // RepairPossible returns whether repair is possible i.e. whether
@@ -616,13 +624,20 @@ func (d *Decoder) ShardCounts() ShardCounts {
 	usableDataShardCount := 0
 	unusableDataShardCount := 0
 
+	misplacedDataFileCount := 0
+
 	for _, info := range d.fileIntegrityInfos {
+		allShardsUsable := true
 		for _, shardInfo := range info.shardInfos {
 			if shardInfo.data == nil {
 				unusableDataShardCount++
+				allShardsUsable = false
 			} else {
 				usableDataShardCount++
 			}
+		}
+		if allShardsUsable && !info.ok(d.sliceByteCount) {
+			misplacedDataFileCount++
 		}
 	}
 
@@ -642,6 +657,7 @@ func (d *Decoder) ShardCounts() ShardCounts {
 		UnusableDataShardCount:   unusableDataShardCount,
 		UsableParityShardCount:   usableParityShardCount,
 		UnusableParityShardCount: unusableParityShardCount,
+		MisplacedDataFileCount:   misplacedDataFileCount,
 	}
 }
 
